@@ -278,6 +278,27 @@ def _includes(ctx, T, R, M, baseline):
         ctx.violation("a bad line in an included file is not diagnosed with that file's name and line: missing %r (got %r)"
                       % (sorted(want - got), sorted(got)), cases[7].replay(), key=None, found_input=True)
     ctx.oblige("oracle: diagnostics for lines of an included file name that file and line", want <= got, "oracle")
+    # the same with the included file named by an absolute path, by a relative path and through a sub-directory: after the
+    # include the diagnostics of the including file must again carry ITS name and ITS line numbers
+    inc = b"\n\n\nsp_arith = bogus\n\n"
+    abs_cases = []
+    for how, line in (("absolute", b"include @ABS@/inc.cfg"), ("absolute-quoted", b'include "@ABS@/sub/inc.cfg"'),
+                      ("relative", b"include inc.cfg"), ("subdir", b"include sub/inc.cfg")):
+        abs_cases.append(cc.Case({b"main.cfg": b"indent_columns=3\n" + line + b"\nindent_columns=nosuch\nnosuch_option=1\n\nsp_assign=12\n",
+                                  b"inc.cfg": inc, b"sub/inc.cfg": inc}, tag="include-then-bad-lines:" + how))
+    areal = R.run_many(abs_cases)
+    abad = 0
+    for c, r in zip(abs_cases, areal):
+        diags, _ = cc.parse_stderr(r[2])
+        got = {(d[0], os.path.basename(d[1]), d[2]) for d in diags}
+        want = {("unexpected-value", b"inc.cfg", 4), ("unexpected-value", b"main.cfg", 3), ("unknown-option", b"main.cfg", 4),
+                ("unexpected-value", b"main.cfg", 6)}
+        ctx.case(c.tag)
+        if not want <= got:
+            abad += 1
+            ctx.violation("%s: after the include the bad lines of the including file are not diagnosed with its name and line: missing %r (got %r)"
+                          % (c.tag, sorted(want - got), sorted(got)), c.replay(), key=None, found_input=True)
+    ctx.oblige("oracle: file name and line number are restored after an include (absolute, quoted, relative, sub-directory)", abad == 0, "oracle")
 
 
 def _nlmax(ctx, T, R, M, baseline):
